@@ -33,3 +33,21 @@ func TestShards(t *testing.T) {
 		t.Errorf("shards cover %d executions, want 30", total)
 	}
 }
+
+func TestGateShards(t *testing.T) {
+	var total int64
+	for s := 0; s < 5; s++ {
+		e := &Explorer{Shard: s, NShards: 5, GateSharding: true, Bound: 1}
+		e.Run(func(c *C) {
+			c.Choose(3, Data, "a")
+			c.Choose(4, Data, "b")
+			c.Gate()
+			c.Choose(2, Dev, "d")
+			c.Choose(2, Dev, "d")
+		})
+		total += e.Stats.Executions
+	}
+	if total != 36 {
+		t.Errorf("gate shards cover %d executions, want 36", total)
+	}
+}
